@@ -55,6 +55,21 @@ func KDCProxyMessageHint(kerb []byte, realm string, withRealm bool, hint int64) 
 	return DerTLV(0x30, body)
 }
 
+// KRBError builds a KRB-ERROR message (RFC 4120 5.9.1) with the given error code.
+func KRBError(code byte, realm string) []byte {
+	ctx := func(n byte, inner []byte) []byte { return DerTLV(0xA0+n, inner) }
+	name := DerTLV(0x30, append(ctx(0, DerTLV(0x02, []byte{2})), ctx(1, DerTLV(0x30, append(DerTLV(0x1B, []byte("krbtgt")), DerTLV(0x1B, []byte(realm))...)))...))
+	var body []byte
+	body = append(body, ctx(0, DerTLV(0x02, []byte{5}))...)
+	body = append(body, ctx(1, DerTLV(0x02, []byte{30}))...)
+	body = append(body, ctx(4, DerTLV(0x18, []byte("20000101000000Z")))...)
+	body = append(body, ctx(5, DerTLV(0x02, []byte{0}))...)
+	body = append(body, ctx(6, DerTLV(0x02, []byte{code}))...)
+	body = append(body, ctx(9, DerTLV(0x1B, []byte(realm)))...)
+	body = append(body, ctx(10, name)...)
+	return DerTLV(0x7E, DerTLV(0x30, body))
+}
+
 func derRead(b []byte) (tag byte, content, rest []byte, err error) {
 	if len(b) < 2 {
 		return 0, nil, nil, errors.New("der: short")
